@@ -24,7 +24,7 @@ RULE = (
     "and >= 3 steps; distinct by JSON hash"
 )
 ASSUMPTIONS = ["jacobian_materialize(); IWP priors; default base scales; x64"]
-REQUIRED_LABELS = ["class:a", "class:b", "class:c", "adaptive", "calib:mle", "calib:dynamic", "strategy:fixedinterval"]
+REQUIRED_LABELS = ["class:a", "class:b", "class:c", "adaptive", "calib:mle", "calib:dynamic", "strategy:fixedinterval", "norm:rms_then_scale", "norm:scale_then_rms"]
 MAX_INCONCLUSIVE = 0.5
 
 
@@ -49,6 +49,8 @@ def strategy(ctx):
         cfg["cinit"] = False
         cfg["klass"] = "a"
         cfg["num_ckpt"] = 4
+        # both error norms the library offers (the scalar isotropic error relies on broadcasting in them)
+        cfg["error"] = dict(kind="residual", norm=str(rng.choice(["scale_then_rms", "rms_then_scale"])), lin=cfg["lin"])
         pool_ad.append(cfg)
 
     @st.composite
@@ -132,7 +134,7 @@ def check_case(case):
         case = dict(case)
         case["C"] = _restrict(case).tolist()
     if case.get("adaptive"):
-        res.label("adaptive")
+        res.label("adaptive", "norm:" + cfg.get("error", {}).get("norm", "scale_then_rms"))
         return _adaptive(res, case)
     smooth = cfg["strategy"] != "filter"
     dense_case = _lib(case, "dense")
